@@ -17,7 +17,7 @@ pub const SHIFTS: [f64; 9] = [-24.0, -12.0, -1.0, -0.5, 0.0, 0.5, 1.0, 12.0, 24.
 
 pub fn run(tier: Tier) -> i32 {
     let rep = Report::new("C15", tier, "model_checking");
-    rep.set_rule("SCOPE: shifts {-24,-12,-1,-0.5,0,0.5,1,12,24} half tones x voices (V0, P1..P3 with GV on; generated 2-/3-stream voices with GV off) x (short utterances + corpus windows of 8 + windows around the lowest/highest-pitched voiced states) x (default + every single further deviation on the short set); trajectories through hook 1; oracle: same frame count and voiced pattern, lf0 shift = h ln2/12 (1e-9) on every voiced frame when no voiced state's mean reaches the 20 Hz..20 kHz clamp, spectrum and low-pass trajectories bit-identical, h=0 bit-identical to never calling the setter; distinct = (voice, other deviation, utterance, h); non-trivial = h != 0 and at least one voiced frame");
+    rep.set_rule("SCOPE: shifts {-24,-12,-1,-0.5,0,0.5,1,12,24} half tones x voices (V0, P1..P3 with GV on; two-voice sets V0+Pk with weights (1.5,-.5), (.5,.5), (-.25,1.25); generated 2-/3-stream voices with GV off) x (short utterances + corpus windows of 8 + windows around the lowest/highest-pitched voiced states) x (default + every single further deviation on the short set); trajectories through hook 1; oracle: same frame count and voiced pattern, lf0 shift = h ln2/12 (1e-9) on every voiced frame when no voiced state's mean reaches the 20 Hz..20 kHz clamp, spectrum and low-pass trajectories bit-identical, h=0 bit-identical to never calling the setter; distinct = (voice, other deviation, utterance, h); non-trivial = h != 0 and at least one voiced frame");
     rep.assume("shift lattice only; when some voiced state's shifted mean reaches the limit the expected trajectory is generated from the limited means through the public MlpgAdjust (itself checked by C05/C12)");
     let corpus = labels::corpus();
     let mut utts: Vec<Vec<String>> = vec![vec![corpus[41].clone()], corpus[40..43].to_vec()];
@@ -52,6 +52,23 @@ pub fn run(tier: Tier) -> i32 {
     let mut voices: Vec<(String, jbonsai::Engine, usize, bool)> = Vec::new();
     for k in 0..tier.pick(2, 4) {
         voices.push((if k == 0 { "V0".into() } else { format!("P{}(V0)", k) }, engine_pk(&[k]), 3, true));
+    }
+    // interpolated voice sets, incl. weights outside [0,1] (legal: they only have to sum to 1), where the mixed voicing
+    // weight of a state can exceed 1
+    for (k2, w) in [(2usize, [1.5, -0.5]), (1, [0.5, 0.5]), (3, [-0.25, 1.25])] {
+        if tier == Tier::Quick && k2 == 3 {
+            continue;
+        }
+        let mut e = engine_pk(&[0, k2]);
+        let iw = e.condition.get_interporation_weight_mut();
+        iw.set_duration(&w).expect("weights");
+        for i in 0..3 {
+            iw.set_parameter(i, &w).expect("weights");
+        }
+        for i in 0..2 {
+            iw.set_gv(i, &w).expect("weights");
+        }
+        voices.push((format!("V0+P{}(V0) weights {:?}", k2, w), e, 3, true));
     }
     // Generated voices only with GV off: the property quantifies over the bundled voice and its perturbed
     // copies for "GV on"; on generated voices a (nearly) constant F0 trajectory makes GV amplify rounding
